@@ -166,7 +166,7 @@ class Inliner:
             # parameter types are those of the arguments, provided that settles it (instantiations that differ in a constant
             # argument only have the same parameter types and different bodies: those calls are left to the evaluator)
             did = _resolved_decl(getattr(e, 'raw', None))
-            byid = [f for f in fs if did is not None and f.node.get('id') == did]
+            byid = [f for f in fs if did is not None and did in (f.node.get('id'), f.node.get('previousDecl'))]
 
             def base(t):
                 return (t or '').replace('const', '').replace('&', '').strip()
